@@ -84,8 +84,10 @@ LEAF = [
     "{% for e in xs %}{% with e: y %}{{ e }}{% break %}{% endwith %}{% endfor %}{{ e }}{{ forloop.index }}",
     "{% assign big = xs | join: s | append: s %}{{ big | size }}{% capture x %}{{ x }}{{ x }}{% endcapture %}{{ x }}",
     "{% tablerow r in xs cols: y %}{{ r }}{{ tablerowloop.col }}{{ tablerowloop.row }}{% endtablerow %}",
+    "{% tablerow r in xs cols: 2 %}{{ r }}{% if r == 2 %}{% break %}{% endif %}{% endtablerow %}{% tablerow r in xs cols: 1 %}{% if r == 1 %}{% continue %}{% endif %}{{ r }}{% endtablerow %}",
+    "{% raw %}{% endraw -%}  {{ x }}{% raw %}{{ y }}{% endraw %}{%- comment %}c{% endcomment -%} z",
 ]
-assert len(WRAP) == 16 and len(LEAF) == 36 and len(WRAP2) == 5   # the bounds in mk_condition's contract
+assert len(WRAP) == 16 and len(LEAF) == 38 and len(WRAP2) == 5   # the bounds in mk_condition's contract
 
 # data sets: nothing defined / ordinary / odd types
 DATA = [
@@ -157,7 +159,7 @@ def mk_condition(name, check, skip=None):
 
     def f(w1: int, leaf: int) -> bool:
         """
-        pre: 0 <= w1 <= 15 and 0 <= leaf <= 35
+        pre: 0 <= w1 <= 15 and 0 <= leaf <= 37
         post: _
         """
         if excluded(name, locals()):
@@ -179,7 +181,7 @@ def outcome(thunk):
         return ("other", type(e).__name__)
 
 
-BOUNDS = "corpus of %d templates = 5 outer constructs x 16 constructs x 36 leaves (harness/corpus.py), 4 fixed data sets" % SIZE
+BOUNDS = "corpus of %d templates = 5 outer constructs x 16 constructs x 38 leaves (harness/corpus.py), 4 fixed data sets" % SIZE
 
 __all__ = ["PARTIALS", "WRAP", "WRAP2", "LEAF", "DATA", "data", "source", "make_env", "template", "Mode",
            "NW2", "NW1", "NLEAF", "NDATA", "SIZE"]
